@@ -114,6 +114,14 @@ def gen_labware(rng, kind, name, regime, size_class, idx, opts):
                     elif rng.random() < 0.15:
                         # an explicit None entry: "no name given" (legal for filled and for empty wells)
                         names[well_id(rr, cc)] = None
+            if names and rows * cols > 1 and rng.random() < 0.08:
+                # a well explicitly called like the *default* name of another well ("plate.B01": a replicate of B01)
+                wid = rng.choice(sorted(k for k, v in names.items() if v is not None) or sorted(names))
+                unnamed = [well_id(rr, cc) for rr in range(rows) for cc in range(cols)
+                           if ini[rr][cc] > 0 and names.get(well_id(rr, cc)) is None and well_id(rr, cc) != wid]
+                other = rng.choice(unnamed) if unnamed else well_id(rng.randrange(rows), rng.randrange(cols))
+                if names.get(wid) is not None:
+                    names[wid] = f"{name}.{other}"
             spec["names"] = names
     else:
         spec["vrows"] = rows
@@ -152,6 +160,10 @@ def gen_labware(rng, kind, name, regime, size_class, idx, opts):
             spec["names"] = [nm if ini[c] > 0 else None for c, nm in enumerate(spec["names"])]
     elif r < 0.12 and all(struct.unpack("f", struct.pack("f", v))[0] == v for v in flat):
         spec["initial_dtype"] = "float32"
+    if kind == "plate":
+        # the well-wise initial volumes as a flat (row-major) array / list or a nested list instead of a 2-D array
+        r = rng.random()
+        spec["initial_form"] = "flat" if r < 0.07 else "flat_list" if r < 0.10 else "nested_list" if r < 0.13 else None
     return spec
 
 
@@ -223,6 +235,13 @@ def build_labware(rt, spec, shared=None, index=None):
         dt = spec.get("initial_dtype")
         if dt in ("float32", "int64"):
             arr = arr.astype(np.float32 if dt == "float32" else np.int64)
+        form = spec.get("initial_form") if spec["kind"] == "plate" else None
+        if form == "flat":
+            arr = arr.reshape(-1).copy()
+        elif form == "flat_list":
+            arr = arr.reshape(-1).tolist()
+        elif form == "nested_list":
+            arr = arr.tolist()
     if index is not None:
         shared[index] = arr
     if spec["kind"] == "plate":
